@@ -13,6 +13,7 @@ PYTHONPATH=$WT VERIF_NPROC=${VERIF_NPROC:-8} ./check $P --tier $TIER > $out 2>&1
 code=$?
 echo "seed=$SID property=$P tier=$TIER exit=$code $(grep -c '^VIOLATION' $out) violation lines; summary: $(grep "^\[$P\]" $out | tail -1)"
 grep -m3 "what:" $out
+/venv/bin/python /verif/tools/seed_record.py "$SID" "$P" "$TIER" "$code" "$out"
 git -C /repo worktree remove --force $WT
 # the check rewrote evidence/$P.json from the mutated tree: restore the committed one
 git -C /verif checkout -- evidence/$P.json 2>/dev/null
